@@ -57,7 +57,7 @@ def cases(tier, rng):
     nblk = 8 if tier == "quick" else 28
     for b in range(nblk):
         out.append({"kind": "model", "block": b, "nblocks": nblk, "tmax": _tmax(tier)})
-    nrun = 12 if tier == "quick" else 160
+    nrun = 10 if tier == "quick" else 300
     for i in range(nrun):
         out.append({"kind": "run", "scene_seed": int(rng.integers(1 << 30)), "loop": bool(i % 2 == 0)})
     out.append({"kind": "run", "scene_seed": 12345, "loop": True, "all_off": True})
@@ -272,7 +272,6 @@ def _check_spec(fdtdx, spec, dt, tmax, r, sigbase, only_T=None):
                 r.ok(("rejected", pred[1]))
                 r.branch("rejected:" + pred[1])
             else:
-                r.evals += 1
                 r.branch("overspecified_accepted_not_judged")
             continue
         if raised is not None:
@@ -598,7 +597,6 @@ def _twin_and_rows(case, r, fdtdx, built, meta, sched, where, rng):
                     )
                 else:
                     r.count("active_steps_with_possibly_zero_amplitude")
-                    r.evals += 1
                 on_count[n] += 1
         # ---------------- detectors: rows ---------------------------------------------------------
         for d in objects.detectors:
